@@ -39,6 +39,14 @@ impl<const ROUNDS: usize> State<ROUNDS> {
                 state[1] = Self::CST16[1];
                 state[2] = Self::CST16[2];
                 state[3] = Self::CST16[3];
+                state[4] = read_u32_le(&key[0..4]);
+                state[5] = read_u32_le(&key[4..8]);
+                state[6] = read_u32_le(&key[8..12]);
+                state[7] = read_u32_le(&key[12..16]);
+                state[8] = read_u32_le(&key[0..4]);
+                state[9] = read_u32_le(&key[4..8]);
+                state[10] = read_u32_le(&key[8..12]);
+                state[11] = read_u32_le(&key[12..16]);
             }
             32 => {
                 state[0] = Self::CST32[0];
